@@ -1,12 +1,17 @@
 #!/usr/bin/env python3
 """Operation generator for engine `rb` (C03).  All randomness from --seed.
 
-quick / thorough: random drawing programs on buffers from 1x1 to 6x12: every primitive, coordinates from
--5 to size+5 chosen *after* undoing the translation currently in force (so most operations hit the buffer and
-the edges of the clip, of masks and of existing runs), nested save/savepen/restore, translate, clip, mask,
-setpen, goto, texts mixing ASCII, combining and double-width characters plus a malformed stream.
+quick / thorough: random drawing programs on buffers from 1x1 to 6x12: every primitive and every text entry
+point (text/textn/textf/vtextf, at a position and at the cursor), coordinates from -5 to size+5 chosen *after*
+undoing the translation currently in force (so most operations hit the buffer and the edges of the clip, of
+masks and of existing runs), nested save/savepen/restore, translate, clip, mask, setpen, goto, texts mixing
+ASCII, combining and double-width characters plus a malformed stream; single-cell and span queries with buffer
+lengths around the length of the answer.  About one history in sixteen runs on a wide buffer (1-2 lines, 66 to
+1030 columns) with texts whose byte length straddles 64 (the stack buffer of put_vtextf) and 256/512/1024 (the
+scratch area and its doublings), in ascending order so that the exact sizes are met after each growth.
 exhaustive: every program of <= 3 drawing operations over a reduced alphabet on a 2x5 buffer, each under four
-auxiliary prologues (plain, mask, clip+translation, save+mask), followed by `restore` and `getcells`.
+auxiliary prologues (plain, mask, clip+translation, save+mask), followed by `restore` and `getcells`; the programs
+of <= 2 operations once more, followed by span and single-cell queries along the first line.
 Prints one JSON line: the input distribution actually produced.
 """
 import argparse, random, json, itertools, collections
@@ -19,6 +24,7 @@ rng = random.Random(a.seed)
 stats = collections.Counter()
 textkinds = collections.Counter()
 sizes = collections.Counter()
+textlens = collections.Counter()
 
 
 def hexs(b):
@@ -89,6 +95,59 @@ def gen_pen():
     return ",".join(items) if items else "-"
 
 
+BOUNDARIES = [63, 64, 65, 255, 256, 257, 511, 512, 513, 1023, 1024, 1025]
+
+
+def bucket(n):
+    for b in BOUNDARIES:
+        if n == b: return str(b)
+    return "<64" if n < 64 else "64-255" if n < 256 else "256-511" if n < 512 else "512-1023" if n < 1024 else ">1024"
+
+
+def long_text(nbytes):
+    """A valid text of exactly nbytes bytes: ASCII, or ASCII with some multi-byte characters mixed in."""
+    if rng.random() < 0.7:
+        textkinds["long-ascii"] += 1
+        return "".join(rng.choice(ASCII) for _ in range(nbytes)).encode()
+    textkinds["long-mixed"] += 1
+    out = b""
+    while len(out) < nbytes:
+        r = rng.random()
+        ch = rng.choice(ASCII) if r < 0.6 else rng.choice(WIDE) if r < 0.8 else rng.choice(COMBINING) if r < 0.9 else rng.choice(NARROW)
+        e = ch.encode()
+        if len(out) + len(e) > nbytes:
+            e = rng.choice(ASCII).encode()
+        out += e
+    return out
+
+
+def text_op(at, text, pos=""):
+    """One of the text entry points for the bytes `text` (`at`: with a position).  The formatted ones print a C
+    string, so they are used for texts without a NUL only half of the time otherwise."""
+    sfx = "_at" if at else ""
+    pre = f" {pos}" if at else ""
+    textlens[bucket(len(text))] += 1
+    r = rng.random()
+    if r < 0.30:
+        return f"text{sfx}{pre} {hexs(text)}"
+    if r < 0.40:
+        return f"textz{sfx}{pre} {hexs(text)}"
+    if r < 0.52:
+        k = rng.random()
+        n = -1 if k < 0.25 else len(text) if k < 0.5 else rng.randint(0, len(text))
+        return f"textn{sfx}{pre} {n} {hexs(text)}"
+    if r < 0.72:
+        return f"textf{sfx}{pre} {hexs(text)}"
+    if r < 0.86:
+        return f"vtextf{sfx}{pre} {hexs(text)}"
+    # "%s%d": the last bytes of the result are the digits
+    v = rng.choice([0, 7, -1, 42, 123, -999, 65536, 2147483647, -2147483648])
+    d = str(v).encode()
+    if len(text) > len(d) and rng.random() < 0.8 and 0 not in text:
+        return f"textfd{sfx}{pre} {hexs(text[:len(text) - len(d)])} {v}"     # same total length
+    return f"textfd{sfx}{pre} {hexs(text)} {v}"
+
+
 class Hist:
     """One history; tracks an approximation of the auxiliary state so that operations mostly land."""
     def __init__(self, L, C):
@@ -97,6 +156,7 @@ class Hist:
         self.xl = (0, 0)
         self.saved = []       # (kind, xl, cursor set?)
         self.cursor = False
+        self.spans = True     # does this history use the span query
 
     def emit(self, s):
         self.ops.append(s)
@@ -144,12 +204,11 @@ class Hist:
     def step(self):
         r = rng.random()
         if r < 0.14:
-            kind = rng.choice(["text_at", "text_at", "text_at", "textf_at"])
-            self.emit(f"{kind} {self.line()} {self.col()} {hexs(gen_text())}")
+            self.emit(text_op(True, gen_text(), f"{self.line()} {self.col()}"))
         elif r < 0.22:
             if not self.cursor and rng.random() < 0.8:
                 self.emit(f"goto {self.line()} {self.col()}"); self.cursor = True
-            self.emit(f"{rng.choice(['text', 'text', 'textf'])} {hexs(gen_text())}")
+            self.emit(text_op(False, gen_text()))
         elif r < 0.30:
             self.emit(f"erase_at {self.line()} {self.col()} {self.width()}")
         elif r < 0.36:
@@ -197,10 +256,21 @@ class Hist:
             self.restore()
         elif r < 0.985:
             self.emit("reset"); self.xl = (0, 0); self.saved = []; self.cursor = False
-        elif r < 0.993:
+        elif r < 0.990:
             self.emit("getcur")
-        else:
+        elif r < 0.993:
             self.emit("getcells")
+        else:
+            self.query()
+
+    def query(self):
+        """A single-cell or span query with a buffer length around the length of the answer."""
+        if self.spans and rng.random() < 0.6:
+            ln = rng.choice([0, 1, 2, 3, 4, 5, 6, 8, 12, 16, 40])
+            mode = rng.choice([7, 7, 7, 7, 5, 3, 1, 4, 6, 2, 0])
+            self.emit(f"getspan {self.line()} {self.col()} {ln} {mode}")
+        else:
+            self.emit(f"getcell {self.line()} {self.col()} {rng.choice([-1, 0, 1, 2, 3, 4, 5, 6, 8, 255])}")
 
 
 def random_history():
@@ -215,12 +285,69 @@ def random_history():
         if rng.random() < 0.5: h.emit("mask %d %d %d %d" % h.rect())
     for _ in range(n):
         h.step()
+        if rng.random() < 0.06:
+            h.query()
     h.emit("getcur")
+    for _ in range(rng.randint(0, 3)):
+        h.query()
     h.emit("getcells")
     # unwind: restore everything and look again through the public queries at (nearly) neutral state
     if rng.random() < 0.6:
         for _ in range(len(h.saved) + (1 if rng.random() < 0.2 else 0)):
             h.restore()
+        h.emit("getcells")
+    return h.ops
+
+
+def wide_history():
+    """A short history on a wide buffer: long texts through every text entry point, byte lengths straddling the
+    stack buffer of put_vtextf (64) and the scratch area (256, then 512, 1024 after each growth), in ascending
+    order; wide erases, skips and lines; queries with buffers around the length of the answer."""
+    L = rng.choice([1, 1, 2])
+    C = rng.choice([66, 130, 258, 300, 514, 520, 1026, 1030])
+    sizes[f"{L}x{C}"] += 1
+    h = Hist(L, C)
+    lens = sorted(set(rng.choice(BOUNDARIES[3 * k:3 * k + 3] if rng.random() < 0.7 else BOUNDARIES[:3 * k + 3])
+                      for k in range(4) for _ in range(rng.randint(1, 2)) if BOUNDARIES[3 * k] <= C + 2))
+    if rng.random() < 0.3: h.emit(f"setpen {gen_pen()}")
+    if rng.random() < 0.3: h.emit("mask %d %d %d %d" % (rng.randint(0, L - 1), rng.randint(0, C - 1), 1, rng.choice([1, 2, 7, 100])))
+    if rng.random() < 0.2: h.emit("clip %d %d %d %d" % (0, rng.choice([0, 1, 5]), L, rng.choice([C, C - 1, C - 7, C // 2])))
+    if rng.random() < 0.2:
+        d = rng.choice([(0, 1), (0, -3), (1, 2), (0, 5)])
+        h.emit(f"xl {d[0]} {d[1]}"); h.xl = d
+    for n in lens:
+        t = long_text(n)
+        # mostly placed so that the whole text is inside, sometimes hanging over either edge
+        r = rng.random()
+        col = (0 if r < 0.5 else rng.choice([1, 2, max(0, C - n), max(0, C - n - 1), C - n + 1, -1, -3])) - h.xl[1]
+        line = rng.randint(0, L - 1) - h.xl[0]
+        if rng.random() < 0.6:
+            h.emit(text_op(True, t, f"{line} {col}"))
+        else:
+            h.emit(f"goto {line} {col}"); h.cursor = True
+            h.emit(text_op(False, t))
+            if rng.random() < 0.5: h.emit(f"char {rng.choice([33, 0x2500, 0xff21])}")       # lands right after the text
+        k = rng.random()
+        if k < 0.15: h.emit(f"erase_at {line} {h.col()} {rng.choice([1, 5, 64, 255, 256, C])}")
+        elif k < 0.25: h.emit(f"skip_at {line} {h.col()} {rng.choice([1, 5, 64, 256, C])}")
+        elif k < 0.33:
+            c1 = rng.randint(0, C - 1) - h.xl[1]
+            h.emit(f"hline {line} {c1} {c1 + rng.choice([1, 7, 63, 300, C])} {rng.randint(1, 3)} {rng.randint(0, 3)}")
+        elif k < 0.38: h.emit(f"vline {-h.xl[0]} {L - 1 - h.xl[0]} {h.col()} {rng.randint(1, 3)} {rng.randint(0, 3)}")
+        elif k < 0.43: h.emit("char_at %d %d %d" % (line, h.col(), rng.choice([65, 0xff21, 0x301])))
+        elif k < 0.47: h.emit("mask %d %d %d %d" % (line, h.col(), 1, rng.choice([1, 3, 64])))
+        elif k < 0.50: h.emit("clear")
+        elif k < 0.53: h.emit("eraserect %d %d %d %d" % (line, h.col(), rng.randint(1, 2), rng.choice([3, 64, 256, C])))
+        elif k < 0.56: h.emit(rng.choice(["save", "savepen", "restore"]))
+        # look at the text just drawn: around its start, its end and the boundaries
+        for _ in range(rng.randint(0, 2)):
+            qc = col + rng.choice([0, 1, n - 1, n - 2, n, 63, 64, 255, 256, rng.randint(0, max(0, n - 1))])
+            if h.spans and rng.random() < 0.6:
+                h.emit(f"getspan {line} {qc} {rng.choice([0, 1, n - 1, n, n + 1, 64, 256, 2048])} {rng.choice([7, 7, 7, 5, 1, 4])}")
+            else:
+                h.emit(f"getcell {line} {qc} {rng.choice([-1, 0, 1, 3, 4, 255])}")
+    h.emit("getcur")
+    if C <= 130 and rng.random() < 0.5:
         h.emit("getcells")
     return h.ops
 
@@ -258,6 +385,15 @@ def exhaustive():
                 out.append("restore")
                 out.append("getcells")
                 n += 1
+                if k <= 2:
+                    # the same program again, looked at through the single-cell and span queries
+                    out.append("new 2 5")
+                    out.extend(pro)
+                    out.extend(prog)
+                    for c in range(-1, 6):
+                        out.append(f"getspan 0 {c} 8 7")
+                    out.extend(["getspan 1 3 2 5", "getspan 0 1 0 1", "getcell 0 1 2", "getcell 0 3 -1", "getcell 1 3 0"])
+                    n += 1
     for op in out:
         stats[op.split()[0]] += 1
     return out, n
@@ -267,12 +403,17 @@ lines = []
 info = {}
 if a.tier == "exhaustive":
     lines, n = exhaustive()
-    info = {"histories": n, "exhaustive_bound": "all programs of <= 3 operations over a 12-operation alphabet on a 2x5 buffer x 4 auxiliary prologues"}
+    info = {"histories": n, "exhaustive_bound": "all programs of <= 3 operations over a 12-operation alphabet on a 2x5 buffer x 4 auxiliary prologues (+ those of <= 2 operations under the span and single-cell queries)"}
 else:
     N = 2500 if a.tier == "quick" else 20000
+    nwide = 0
     for _ in range(N):
-        lines.extend(random_history())
-    info = {"histories": N}
+        if rng.random() < 1 / 16:
+            lines.extend(wide_history()); nwide += 1
+        else:
+            lines.extend(random_history())
+    info = {"histories": N, "wide_histories": nwide}
 open(a.out, "w").write("\n".join(lines) + "\n")
-info.update({"ops": len(lines), "op_mix": dict(stats.most_common()), "text_kinds": dict(textkinds), "buffer_sizes": dict(sizes.most_common(8))})
+info.update({"ops": len(lines), "op_mix": dict(stats.most_common()), "text_kinds": dict(textkinds), "text_bytes": dict(textlens),
+             "buffer_sizes": dict(sizes.most_common(8))})
 print(json.dumps(info))
